@@ -75,6 +75,12 @@ CLAIMED.update({
         note="Trusted: z3, symx, the struct stub. zlib is outside the encodable subset: only decompress(compress(x)) == x is assumed (counterexamples are replayed with the real zlib). The voluptuous validators are not modelled (schedules are well-formed by construction). Float setpoints are exact reals here; the int(round(x*100)) kernel was decided under C04. Fragment write/read commands: C03.",
         design="4/C17"),
 })
+CLAIMED.update({
+    "C11": dict(
+        text="The real limit_duty_cycle closure (fresh instance and the one decorating PortTransport.write_frame), the 50 ms write-token task and MqttTransport.write_frame run on the virtual-time loop with perf_counter = the virtual clock; request times are solver reals, frame sizes selectors, callers sequential or overlapping, and the bucket / token level at the start of the episode an arbitrary solver real within the invariant (so each episode is an inductive step). Per path, for every pair of writes: bits <= rate x window + one bucket (+ one frame per pending caller), bits <= level + refill, writes j-i <= window/0.05 + 1, MQTT publishes <= level + refill + one refill second, an accepted MQTT write sleeps <= 1 s and an over-budget one returns at once; every accepted frame is written once, unaltered, sequential ones in order.",
+        note="Trusted: z3 (linear real arithmetic), symx, the bare transport objects. The library computes in binary floating point, the solver in exact rationals: inequalities carry a 1e-6 tolerance. Bounds: k <= 3 requests per episode (4 thorough); port queries within 0.2 s because the 50 ms task is stepped. avoid_system_syncs with pending sync cycles is outside.",
+        design="4/C11"),
+})
 NOT_APPLICABLE = {
     "C12": "whole-gateway discovery against a scripted controller over simulated hours: the quantified space is a discrete configuration/loss pattern and the entity layer (voluptuous schemas, pollers, entity graph) is outside the symbolically executable subset; decode kernels it rests on are covered under C05",
     "C15": "schema validity/consistency over packet histories: validators are voluptuous (third-party, callable/regex based, not instrumented) and the rules live in the entity graph; no symbolic dimension is encodable within reach",
